@@ -1274,7 +1274,6 @@ func (repo *Repository) load(ctx context.Context, depth int) error {
 	if len(branches) == 0 {
 		return errors.New("No branches loaded")
 	}
-	repo.longest = branches.Longest()
 
 	// Connect branches to parents
 	sort.Sort(branches)
@@ -1296,6 +1295,12 @@ func (repo *Repository) load(ctx context.Context, depth int) error {
 
 		repo.branches = append(repo.branches, branch)
 	}
+
+	// Only a branch that is linked back to the main branch can be the longest.
+	if len(repo.branches) == 0 {
+		return errors.New("No branches linked")
+	}
+	repo.longest = repo.branches.Longest()
 
 	if err := repo.loadHistoricalHashHeights(ctx); err != nil {
 		return errors.Wrap(err, "historical heights")
